@@ -93,6 +93,7 @@ JOBS = {
     "C15": [
         {"cmd": "c15-model", "race": False, "batches": {"quick": 4, "thorough": 16}, "timeout": {"quick": 300, "thorough": 900}},
         {"cmd": "c15-exh", "race": False, "batches": {"quick": 2, "thorough": 8}, "timeout": {"quick": 300, "thorough": 900}},
+        {"cmd": "c15-wide", "race": False, "batches": {"quick": 4, "thorough": 8}, "timeout": {"quick": 300, "thorough": 900}},
         {"cmd": "c15-e2e", "race": True, "batches": {"quick": 2, "thorough": 6}, "timeout": {"quick": 400, "thorough": 1500}, "fatal_is_violation": "crash-only"},
     ],
     "C16": [
